@@ -1022,6 +1022,14 @@ theorem bsOk_of_no_backslash (l : List Char) (h : '\\' ∉ l) : bsOk false l = t
     have hc : c ≠ '\\' := fun e => h (e ▸ List.mem_cons_self)
     simp [bsOk, hc, ih (fun e => h (List.mem_cons_of_mem _ e))]
 
+theorem bsOk_append_of_no_backslash (l1 l2 : List Char) (h : '\\' ∉ l1) :
+    bsOk false (l1 ++ l2) = bsOk false l2 := by
+  induction l1 with
+  | nil => rfl
+  | cons c t ih =>
+    have hc : c ≠ '\\' := fun e => h (e ▸ List.mem_cons_self)
+    simp [bsOk, hc, ih (fun e => h (List.mem_cons_of_mem _ e))]
+
 /-! ### clamped mix -/
 
 theorem clamp01_eq (m : ℚ) : clamp01 m = min (max m 0) 1 := by
